@@ -125,6 +125,7 @@ pub mod k {
     pub const NEW_MAXSTREAMS_AT: i128 = 92; // us: the server calls set_max_concurrent_streams on every connection
     pub const NEW_MAX_BIDI: i128 = 93; // ... with these values (-1 = leave)
     pub const NEW_MAX_UNI: i128 = 94;
+    pub const RESET_FORGE: i128 = 95; // 1: whenever the client puts a long-header datagram on the wire, the attacker sends it a short-header datagram addressed to that datagram's source CID and ending in the token of a stateless reset it has OBSERVED earlier (a token that belongs to some other, older connection ID)
     pub const DGRAM_START: i128 = 81; // us: application datagrams are not sent before this instant
     pub const RECONNECT: i128 = 70; // open this many further client connections, one per drained connection (slot reuse)
 }
@@ -338,6 +339,7 @@ pub struct World {
     att_ep: Option<Endpoint>,
     retry2_done: bool,
     quiet: bool,
+    seen_server_cids: Vec<Vec<u8>>,
 }
 
 /// long-header Initial (QUIC v1) whose token is not empty
@@ -516,6 +518,7 @@ impl World {
             att_ep: None,
             retry2_done: false,
             quiet: false,
+            seen_server_cids: Vec::new(),
             p,
         };
         let (cert, key) = load_cert();
@@ -750,6 +753,72 @@ impl World {
                         self.net.push(Pkt { at: self.now + dmin / 2 + 1, seq: self.seq, src: dst, dst: src, ecn: None, data: d, origin: -2, kind: 7 });
                         self.trace.push(vec![9, t, idx as i128, 7, did, sid, sz]);
                         self.trace.push(vec![13, t, 12, sz]);
+                    }
+                }
+            }
+        }
+        // only connection IDs of the warm-up phase (their connections are gone when phase 2 starts)
+        if self.p.get(k::RESET_FORGE, 0) == 1 && src_ep == 1 && self.now < 900_000 && data.len() > 7 && data[0] & 0x80 != 0 {
+            let dl = data[5] as usize;
+            if 6 + dl < data.len() {
+                let sl = data[6 + dl] as usize;
+                if 7 + dl + sl <= data.len() && sl > 0 {
+                    let scid = data[7 + dl..7 + dl + sl].to_vec();
+                    if !self.seen_server_cids.contains(&scid) {
+                        self.seen_server_cids.push(scid);
+                    }
+                }
+            }
+        }
+        if self.p.get(k::RESET_FORGE, 0) == 1 && src_ep == 0 && self.now >= 1_000_000 && data.len() > 7 && data[0] & 0x80 != 0 && self.injected < 400 {
+            let dl = data[5] as usize;
+            if 6 + dl < data.len() {
+                let sl = data[6 + dl] as usize;
+                if 7 + dl + sl <= data.len() && sl > 0 {
+                    let scid = data[7 + dl..7 + dl + sl].to_vec();
+                    let mut toks: Vec<Vec<u8>> = Vec::new();
+                    // tokens of connection IDs the server used on earlier connections (an attacker learns
+                    // them by provoking stateless resets once those connections are gone): computed here
+                    // with the server's reset key
+                    {
+                        let seed = self.p.get(k::SEED, 1) as u64 ^ 0xABCD;
+                        let mut rk = [0u8; 64];
+                        for (i, b) in rk.iter_mut().enumerate() {
+                            *b = (seed as u8).wrapping_add(i as u8).wrapping_mul(37) ^ 0x5E;
+                        }
+                        let key = ring_hmac(&rk);
+                        for cid in self.seen_server_cids.iter().rev().take(6) {
+                            let mut sig = [0u8; 32];
+                            quinn_proto::crypto::HmacKey::sign(&key, cid, &mut sig);
+                            toks.push(sig[..16].to_vec());
+                        }
+                    }
+                    for e in self.stored.iter().rev() {
+                        if e.3 == -1 && e.2.len() >= 21 && e.2[0] & 0x80 == 0 {
+                            let t16 = e.2[e.2.len() - 16..].to_vec();
+                            if !toks.contains(&t16) && toks.len() < 12 {
+                                toks.push(t16);
+                            }
+                        }
+                    }
+                    for tok in toks {
+                        // Initial-shaped (the client has Initial keys from the start; short-header
+                        // packets are dropped before any reset check while 1-RTT keys are missing):
+                        // header protection / AEAD fail, what remains is the trailing token
+                        let mut f = vec![0xc0 | (self.rng.below(4) as u8), 0, 0, 0, 1, scid.len() as u8];
+                        f.extend_from_slice(&scid);
+                        f.push(0); // no source CID
+                        f.push(0); // no token
+                        f.extend_from_slice(&[0x40, 64]); // length: 64 bytes follow
+                        for _ in 0..48 {
+                            f.push(self.rng.below(256) as u8);
+                        }
+                        f.extend_from_slice(&tok);
+                        self.seq += 1;
+                        self.injected += 1;
+                        let sz = f.len() as i128;
+                        self.net.push(Pkt { at: self.now + 1000, seq: self.seq, src: dst, dst: src, ecn: None, data: f, origin: -2, kind: 7 });
+                        self.trace.push(vec![9, t, -1, 7, did, sid, sz]);
                     }
                 }
             }
